@@ -878,7 +878,7 @@ Proof.
   destruct p as [s| |]; try (apply Hother; discriminate). clear Hother.
   rewrite onestep_after in H. cbn [step] in H. unfold group_head in H.
   destruct (group_select (s_core st)) as [c1|r] eqn:EG.
-  - destruct (true && (32 <=? N.of_nat (length (l_next st)))) eqn:Efast.
+  - destruct (true && (fast_path_words <=? N.of_nat (length (l_next st)))) eqn:Efast.
     + destruct (ofO (FRead RTree) (nth_error (r_tree c1) (N.to_nat (r_t c1)))) as [T|f] eqn:ET.
       * set (fr := fast_loop (N.to_nat GROUP_SIZE) T c1 (l_next st) (r_run c1) (r_runChar c1) (r_shift c1)) in *.
         assert (HT : nth_error (r_tree c1) (N.to_nat (r_t c1)) = Some T).
